@@ -52,6 +52,7 @@ def run(tier):
     drv_admm.solver_sweep(rep, tier, {"C03"})
     from . import _metrics
     _metrics.floor_family(rep, tier, {"C03"})          # exact floor semantics on integer matrices
+    _metrics.ll_family(rep, tier, {"C03"})             # SPD fields with log det in +-3000 (NW to 200): finite likelihoods
     t0 = allt[0]
     rep.sample({"hdr": {k: v for k, v in t0["hdr"].items() if k != "workerResults"},
                 "optimize_events": [{"round": e["round"], "o2": e["o2"], "o8": e["o8"]} for e in t0["events"]
